@@ -893,15 +893,16 @@ theorem C03_plain_destructor (env : Env) (hc : env.cfg = genLexCfg) (F D : Nat) 
     (fun W f' hW hft _ => parseParameters_empty_flex env F _ W f' bc hW (hft.trans hcp)) hyq hsemi hs hsv hFq hF
 
 /-- **classes that declare constructors and destructors are pieces of whole sources**: `key … N { members } ;` is an `Item`
-    when its members are `MemberN (nameIs N)` — every ordinary `Member` (`Member.toN`), `N ( ) quals ;` (`MemberN.ctor0`) and
+    when its members are `MemberN (nameIs N)` — every ordinary `Member` (`Member.toN`), `N ( ) quals ;` (`MemberN.ctor0`), `N ( parameters ) quals ;` (`MemberN.ctorP`) and
     `~N ( ) quals ;` (`MemberN.dtor0`) — so `parse_source` / `C01_whole_source` report, for such a class, the block start, one
     callback per member in order (constructors and destructors flagged as such, under the access level in force) and the block
     end -/
 example (env : Env) (hp : RulesProgress env.cfg = true) (hnf : env.faultAt = none) (F D : Nat) (hskip : ∀ i h, env.skip i h = false)
-    (nm : String) (kw first : Tok) (pairs : List (Tok × Tok)) (c0 op cp semi d0 : Tok) (quals : List Tok)
+    (nm : String) (kw first : Tok) (pairs : List (Tok × Tok)) (c0 op cp semi d0 : Tok) (quals : List Tok) (ps : List (PItemG × Tok)) (last : PItemG)
     (ms : List (Member env F (core F (D + 1 + 1 + 1 + 1)))) : Item env F (core F (D + 1 + 1 + 1 + 1)) :=
   Item.clsN env hp hnf F D hskip nm kw first pairs
-    (ms.map (fun m => m.toN (nameIs nm)) ++ [MemberN.ctor0 env hp hnf F D nm c0 op cp quals semi, MemberN.dtor0 env hp hnf F D nm d0 op cp quals semi])
+    (ms.map (fun m => m.toN (nameIs nm)) ++ [MemberN.ctor0 env hp hnf F D nm c0 op cp quals semi,
+      MemberN.ctorP env hp hnf F D nm c0 op ps last cp quals semi, MemberN.dtor0 env hp hnf F D nm d0 op cp quals semi])
 
 /-- non-vacuity of the qualifier hypothesis: a constructor record accepts the empty qualifier list and stays a constructor
     without a return type -/
